@@ -264,6 +264,52 @@ func C01(c *fw.Ctx) {
 			}
 		}
 	}
+	// calls through names: a parameter (of every name: ordinary, every built-in's) bound to a user
+	// function and called; plain, and with ladder-conform parentheses around the callee, the argument,
+	// the call: all must print what the reference model says
+	{
+		names := append([]string{"f", "g2"}, model.Builtins...)
+		for _, nm := range names {
+			for variant := 0; variant < 4; variant++ {
+				if !c.Mine() {
+					continue
+				}
+				callee, arg := model.Id(nm), model.Id("v")
+				var call *model.N
+				switch variant {
+				case 0:
+					call = model.Call(callee, arg)
+				case 1:
+					call = model.Call(model.Grp(callee), arg)
+				case 2:
+					call = model.Call(callee, model.Grp(arg))
+				case 3:
+					call = model.Grp(model.Call(callee, arg))
+				}
+				prog := []*model.N{
+					model.Fun("ap", []string{nm, "v"}, model.Return(call)),
+					model.Fun("neg", []string{"x"}, model.Return(model.Bin("-", model.Num(0), model.Bin("*", model.Id("x"), model.Num(2))))),
+					model.Print(model.CallN("ap", model.Id("neg"), model.Num(5))),
+					model.Print(model.CallN("ap", model.Id(model.BiAbs), model.Un("-", model.Num(7)))),
+				}
+				src := model.Render(prog)
+				res := (&model.Machine{}).Run(prog)
+				o := h.RunFile(src, h.Opts{})
+				c.Eval(src, true)
+				base := fw.Replay{Mode: "file", Program: src, CLI: true, InStdout: o.Stdout, InStderr: o.Stderr, InStatus: o.Status}
+				if abnormal(c, o, "file", src, base) || res.Unspec != "" {
+					continue
+				}
+				if why := model.CompareStdout(res, o.Stdout); why != "" || o.Status != 0 {
+					r := base
+					r.Sig = fmt.Sprintf("C01|paren-print|call-through-name|variant%d", variant)
+					r.What = "a call through a parameter prints something else than the tree says (with or without ladder-conform parentheses)"
+					r.Expected, r.Observed = res.Stdout(), fmt.Sprintf("%q status %d stderr %q (%s)", o.Stdout, o.Status, trunc(o.Stderr, 100), why)
+					c.Violate(r)
+				}
+			}
+		}
+	}
 	// statement skeletons (dangling else, loops, blocks) + declarations
 	g := &skGen{maxDepth: 3}
 	size := 4
